@@ -287,6 +287,39 @@ def call_objects(rep, r, n):
                 break
         rep.case(('psfcalls', tuple(seq)), True, kind='PSFPhotometry-calls', sample={'seq': seq})
         rep.probe_only += 1
+    # a model with an extra free parameter (fwhm), no grouper: a call whose table carries the parameter as a column, then a call without it -
+    # the second call starts from the model's own default, as a fresh object does, and the caller's model is what it was (seeds C09-r10 / C10-r10
+    # fitted single sources on the stored model itself)
+    for kk in range(max(1, n // 2)):
+        m2 = model.copy()
+        m2.fwhm.fixed = False
+        dflt = {nm: float(getattr(m2, nm).value) for nm in m2.param_names}
+
+        def mk2(mm):
+            return PSFPhotometry(mm, (5, 5), aperture_radius=4, progress_bar=False, grouper=SourceGrouper(6.0) if kk % 2 else None)
+        t_a = Table({'x': [s[0] + 0.2 for s in srcs], 'y': [s[1] - 0.1 for s in srcs], 'fwhm': [r.choice([4.5, 5.5]) for _ in srcs]})
+        t_b = Table({'x': [s[0] - 0.1 for s in srcs[:3]], 'y': [s[1] + 0.2 for s in srcs[:3]]})
+        with warnings.catch_warnings():
+            warnings.simplefilter('ignore')
+            try:
+                ph2 = mk2(m2)
+                ph2(img, init_params=t_a)
+                res = ph2(img * 2.0, init_params=t_b)
+                m3 = model.copy()
+                m3.fwhm.fixed = False
+                ref = mk2(m3)(img * 2.0, init_params=t_b)
+            except Exception as e:                              # noqa: BLE001
+                rep.violation(f'psfphot-call-raises:extra-parameter:{type(e).__name__}', f'PSFPhotometry with a free fwhm raised {e!r}', {})
+                continue
+        rep.case(('psfcalls-extra', kk), True, kind='PSFPhotometry-calls:extra-parameter')
+        rep.probe_only += 1
+        cols2 = [c_ for c_ in ('x_fit', 'y_fit', 'flux_fit', 'fwhm_init', 'fwhm_fit') if c_ in res.colnames]
+        bad = [c_ for c_ in cols2 if not same_val(res[c_], ref[c_], rel=1e-7)]
+        now = {nm: float(getattr(m2, nm).value) for nm in m2.param_names}
+        if bad or now != dflt or m2.name != model.name:
+            rep.violation('psfphot-call-dependent:extra-parameter' + ('' if bad else ':model-modified'),
+                          f'PSFPhotometry(model with a free fwhm): after a call whose init_params had an fwhm column, a call without one differs from a fresh object in {bad}; '
+                          f'the model passed to the constructor went from {dflt} to {now} (name {m2.name!r})', {'grouper': bool(kk % 2)})
     # IterativePSFPhotometry: two calls
     for _ in range(max(1, n // 3)):
         def mki():
